@@ -75,6 +75,7 @@ type reqLog struct {
 	ScopeErrH  int
 	ResErrH    int
 	PanicH     int
+	Decoy      int // callbacks configured for ANOTHER Handle wrapper that ran for this request
 	CloseErrH  int
 	HandlerRan bool
 	CtlRan     bool
@@ -120,11 +121,12 @@ type appCfg struct {
 	CtlRegistered bool // false: Handle resolves a type nobody registered
 	NoScopeMW     bool // Handle mounted without the scope middleware
 	HasInit       bool // an initializer function exists (needed for scope-fail)
+	Decoy         bool // a second Handle wrapper with the opposite options is built afterwards (its route is never requested)
 }
 
 func (c appCfg) String() string {
-	return fmt.Sprintf("%s mw=%d customErr=%v customClose=%v handle=%v recovery=%v customHandle=%v ctl=%v noScopeMW=%v init=%v",
-		c.Framework, c.NMw, c.CustomErr, c.CustomClose, c.UseHandle, c.Recovery, c.CustomHandle, c.CtlRegistered, c.NoScopeMW, c.HasInit)
+	return fmt.Sprintf("%s mw=%d customErr=%v customClose=%v handle=%v recovery=%v customHandle=%v ctl=%v noScopeMW=%v init=%v decoy=%v",
+		c.Framework, c.NMw, c.CustomErr, c.CustomClose, c.UseHandle, c.Recovery, c.CustomHandle, c.CtlRegistered, c.NoScopeMW, c.HasInit, c.Decoy)
 }
 
 func buildProvider(w *webWorld, cfg appCfg) (godi.Provider, error) {
@@ -244,6 +246,8 @@ func (w *webWorld) count(id, what string) {
 		l.ResErrH++
 	case "panicH":
 		l.PanicH++
+	case "decoy":
+		l.Decoy++
 	}
 	l.mu.Unlock()
 }
@@ -339,6 +343,13 @@ func stdAdapter(chi bool) adapter {
 				} else {
 					final = godichi.Handle(func(c *Unregistered, rw http.ResponseWriter, r *http.Request) { _ = w.onCtl(reqID(r), nil) }, ho...)
 				}
+				if cfg.Decoy {
+					dh := func(rw http.ResponseWriter, r *http.Request) { w.count(reqID(r), "decoy"); rw.WriteHeader(595) }
+					_ = godichi.Handle(func(c *Ctl, rw http.ResponseWriter, r *http.Request) {}, godichi.WithPanicRecovery(!cfg.Recovery),
+						godichi.WithPanicHandler(func(rw http.ResponseWriter, r *http.Request, v any) { dh(rw, r) }),
+						godichi.WithScopeErrorHandler(func(rw http.ResponseWriter, r *http.Request, err error) { dh(rw, r) }),
+						godichi.WithResolutionErrorHandler(func(rw http.ResponseWriter, r *http.Request, err error) { dh(rw, r) }))
+				}
 			}
 		} else {
 			var opts []godihttp.Option
@@ -374,6 +385,13 @@ func stdAdapter(chi bool) adapter {
 					}, ho...)
 				} else {
 					final = godihttp.Wrap(func(c *Unregistered, rw http.ResponseWriter, r *http.Request) { _ = w.onCtl(reqID(r), nil) }, ho...)
+				}
+				if cfg.Decoy {
+					dh := func(rw http.ResponseWriter, r *http.Request) { w.count(reqID(r), "decoy"); rw.WriteHeader(595) }
+					_ = godihttp.Handle(func(c *Ctl, rw http.ResponseWriter, r *http.Request) {}, godihttp.WithPanicRecovery(!cfg.Recovery),
+						godihttp.WithPanicHandler(func(rw http.ResponseWriter, r *http.Request, v any) { dh(rw, r) }),
+						godihttp.WithScopeErrorHandler(func(rw http.ResponseWriter, r *http.Request, err error) { dh(rw, r) }),
+						godihttp.WithResolutionErrorHandler(func(rw http.ResponseWriter, r *http.Request, err error) { dh(rw, r) }))
 				}
 			}
 		}
@@ -438,6 +456,14 @@ func ginAdapter(w *webWorld, p godi.Provider, cfg appCfg) func(string) (int, any
 			final = godigin.Handle(func(ctl *Unregistered, c *gin.Context) { _ = w.onCtl(reqID(c.Request), nil) }, ho...)
 		}
 	}
+	if cfg.UseHandle && cfg.Decoy {
+		// another wrapper, configured the other way round: each Handle has its own configuration
+		decoy := godigin.Handle(func(ctl *Ctl, c *gin.Context) {}, godigin.WithPanicRecovery(!cfg.Recovery),
+			godigin.WithPanicHandler(func(c *gin.Context, v any) { w.count(reqID(c.Request), "decoy"); c.AbortWithStatus(595) }),
+			godigin.WithScopeErrorHandler(func(c *gin.Context, err error) { w.count(reqID(c.Request), "decoy"); c.AbortWithStatus(595) }),
+			godigin.WithResolutionErrorHandler(func(c *gin.Context, err error) { w.count(reqID(c.Request), "decoy"); c.AbortWithStatus(595) }))
+		e.GET("/decoy", decoy)
+	}
 	e.GET("/x", final)
 	return func(id string) (status int, escaped any) {
 		rec := httptest.NewRecorder()
@@ -491,6 +517,13 @@ func echoAdapter(w *webWorld, p godi.Provider, cfg appCfg) func(string) (int, an
 		} else {
 			final = godiecho.Handle(func(ctl *Unregistered, c echo.Context) error { return w.onCtl(reqID(c.Request()), nil) }, ho...)
 		}
+	}
+	if cfg.UseHandle && cfg.Decoy {
+		decoy := godiecho.Handle(func(ctl *Ctl, c echo.Context) error { return nil }, godiecho.WithPanicRecovery(!cfg.Recovery),
+			godiecho.WithPanicHandler(func(c echo.Context, v any) error { w.count(reqID(c.Request()), "decoy"); return c.NoContent(595) }),
+			godiecho.WithScopeErrorHandler(func(c echo.Context, err error) error { w.count(reqID(c.Request()), "decoy"); return c.NoContent(595) }),
+			godiecho.WithResolutionErrorHandler(func(c echo.Context, err error) error { w.count(reqID(c.Request()), "decoy"); return c.NoContent(595) }))
+		e.GET("/decoy", decoy)
 	}
 	e.GET("/x", final)
 	return func(id string) (status int, escaped any) {
@@ -549,6 +582,13 @@ func fiberAdapter(w *webWorld, p godi.Provider, cfg appCfg) func(string) (int, a
 			final = godifiber.Handle(func(ctl *Unregistered, c *fiber.Ctx) error { return w.onCtl(fid(c), nil) }, ho...)
 		}
 	}
+	if cfg.UseHandle && cfg.Decoy {
+		decoy := godifiber.Handle(func(ctl *Ctl, c *fiber.Ctx) error { return nil }, godifiber.WithPanicRecovery(!cfg.Recovery),
+			godifiber.WithPanicHandler(func(c *fiber.Ctx, v any) error { w.count(fid(c), "decoy"); return c.SendStatus(595) }),
+			godifiber.WithScopeErrorHandler(func(c *fiber.Ctx, err error) error { w.count(fid(c), "decoy"); return c.SendStatus(595) }),
+			godifiber.WithResolutionErrorHandler(func(c *fiber.Ctx, err error) error { w.count(fid(c), "decoy"); return c.SendStatus(595) }))
+		app.Get("/decoy", decoy)
+	}
 	app.Get("/x", final)
 	return func(id string) (status int, escaped any) {
 		resp, err := app.Test(newReq(id), -1)
@@ -578,6 +618,9 @@ func judge(cfg appCfg, pl *plan, l *reqLog, status int, escaped any, providerClo
 	l.mu.Lock()
 	defer l.mu.Unlock()
 	ev := strings.Join(l.Events, ",")
+	if l.Decoy != 0 {
+		return ff("handle", fw+"/foreign-config", "a callback configured for another Handle wrapper ran for this request (events %s)", ev)
+	}
 	// --- Handle without scope middleware: exactly the scope-error handler, nothing else
 	if cfg.NoScopeMW {
 		if cfg.UseHandle {
@@ -737,6 +780,7 @@ func TestC16Web(t *testing.T) {
 			CustomErr:     rapid.Bool().Draw(rt, "customErr"),
 			CustomClose:   rapid.Bool().Draw(rt, "customClose"),
 			UseHandle:     rapid.Bool().Draw(rt, "useHandle"),
+			Decoy:         rapid.Bool().Draw(rt, "decoy"),
 			Recovery:      rapid.Bool().Draw(rt, "recovery"),
 			CustomHandle:  rapid.Bool().Draw(rt, "customHandle"),
 			CtlRegistered: rapid.IntRange(0, 3).Draw(rt, "ctl") != 0,
